@@ -79,7 +79,7 @@ def main():
                 print(f"{sid:12} {r['property']:4} {r['result']:14} {r.get('wall_s', '')!s:6} {r.get('signatures', '')}")
                 if r["result"] not in ("DETECTED",):
                     print("      ", r.get("tail", "")[-500:])
-            if not any(r["result"] == "DETECTED" and r["property"] == meta["property"] for r in runs):
+            if not any(r["result"] == "DETECTED" and r["property"] == meta["property"] for r in runs) and not meta.get("declined"):
                 ok = False
     write_readme()
     return 0 if ok else 1
@@ -95,7 +95,8 @@ def write_readme():
         first = (m.get("needs_to_manifest") or "").strip().splitlines()
         title = first[0][:110] if first else ""
         sig = (det[0]["signatures"][0] if det and det[0].get("signatures") else "")[:90]
-        rows.append(f"| {m['id']} | {m['property']} | {title} | {'detected' if det else 'MISSED'} | `{sig}` | {m.get('strengthened', '')} |")
+        status = "detected" if det else ("not flagged on purpose" if m.get("declined") else "MISSED")
+        rows.append(f"| {m['id']} | {m['property']} | {title} | {status} | `{sig}` | {m.get('strengthened', '') or m.get('declined', '')} |")
     text = (
         "# Independently seeded changes\n\n"
         "Each directory holds a change to OpenCyphal/nunavut written by a fresh sub-agent that saw only the text of one property and a\n"
